@@ -322,6 +322,10 @@ let cmd_engine (args : sx list) : sx =
       let snd_ = if want 's' then [A "sound"; bool_sx (lab_ok string_dom s_goodb atoms_self a (compute_lab string_dom atoms_self a) cs)] else [] in
       let cpl = if want 'c' then [A "complete"; bool_sx (cert_complete (char_entails N.eqb) (char_refutes N.eqb) a cs pres)] else [] in
       let tgt = if want 't' then [A "tight"; bool_sx (s_keys_tight a cs)] else [] in
+      let tgt = tgt @ (if want 'u' then
+         let sl = compute_slab (char_ceqb N.eqb) (char_refutes N.eqb) a in
+         [A "slab"; bool_sx (slab_ok (char_ceqb N.eqb) (char_refutes N.eqb) a sl); A "unamb"; bool_sx (cert_unamb (char_ceqb N.eqb) (char_refutes N.eqb) a sl);
+          A "vdet"; bool_sx (accept_vdet a sl); A "eroot"; bool_sx (empty_keys_at_root a); A "esc"; bool_sx (empty_scope_closed a)] else []) in
       L (wf @ snd_ @ cpl @ tgt)
   | [A "cert"; A "mat"; A which; aut; pats; present] ->
       let a = sx_automaton sx_mkey (sx_ccons sx_mkey) aut in
